@@ -166,6 +166,9 @@ type Template struct {
 	// Resets: the command may change a server setting that the dataset projection does not show
 	// (READONLY, FOLLOW, CONFIG SET, SCRIPT FLUSH); Restore() is sent afterwards.
 	Resets bool
+	// Rewrites: the command starts a rewrite of the log in the background (AOFSHRINK); the next behaviour
+	// starts when it has ended on every server, so that log sizes are again the same everywhere.
+	Rewrites bool
 	// AckFrames (live templates): how many frames are replies to the command; what follows is a raw
 	// stream (AOF: the log itself), not a reply. 0 = every frame that arrives before the triggers.
 	AckFrames int
@@ -333,7 +336,7 @@ var Templates = map[string][]Template{
 	"client":         {w("CLIENT LIST"), w("CLIENT GETNAME"), rc(pre("CLIENT SETNAME {hook}", w("CLIENT GETNAME"))), rc(pre("CLIENT SETNAME {hook}", w("CLIENT LIST"))), rc(w("CLIENT SETNAME {hook}")), rc(w("CLIENT SETNAME myname")), w("CLIENT KILL id 999999"), w("CLIENT KILL 1.2.3.4:5"), w("CLIENT KILL bogus"), w("CLIENT BOGUS")},
 	"aof":            {Template{Args: []string{"AOF", "0"}, Live: true, AckFrames: 1}, w("AOF abc"), w("AOF 999999999999")},
 	"aofmd5":         {w("AOFMD5 0 10"), w("AOFMD5 0 0"), w("AOFMD5 abc 1"), w("AOFMD5 0 999999999999"), w("AOFMD5 0 -1")},
-	"aofshrink":      {w("AOFSHRINK")},
+	"aofshrink":      {Template{Args: []string{"AOFSHRINK"}, Rewrites: true}},
 	"gc":             {w("GC")},
 	"server":         {w("SERVER"), w("SERVER EXT"), w("SERVER BOGUS")},
 	"info":           {w("INFO"), w("INFO server"), w("INFO all"), w("INFO replication stats"), w("INFO nosuchsection")},
@@ -381,6 +384,7 @@ type Instance struct {
 	Reconnect bool       `json:"reconnect"`
 	AckFrames int        `json:"ackframes"`
 	Resets    bool       `json:"resets"`
+	Rewrites  bool       `json:"rewrites"`
 	Pre       []string   `json:"pre,omitempty"`
 	Named     bool       `json:"named"` // the arguments depend on the naming, or the reply lists names of the state
 }
@@ -416,7 +420,7 @@ func Instances(cmds []gates.SourceCmd) ([]Instance, error) {
 				id = fmt.Sprintf("%s~%d", name, k+1)
 			}
 			out = append(out, Instance{ID: id, Base: name, Args: tp.Args, Live: tp.Live, Trigger: tp.Trigger, Thorough: tp.Thorough, Reconnect: tp.Reconnect, AckFrames: tp.AckFrames,
-				Resets: tp.Resets, Pre: tp.Pre, Named: named(tp.Args) || named(tp.Pre)})
+				Resets: tp.Resets, Rewrites: tp.Rewrites, Pre: tp.Pre, Named: named(tp.Args) || named(tp.Pre)})
 		}
 	}
 	if len(missing) > 0 {
